@@ -22,7 +22,8 @@ RULE = (
     "numeric array, datetime; as rows, columns, strand; one 3-D) with 1-3 items (quick) / 1-5 "
     "(thorough), every transform slot that takes an element reference {hide key, rename key, "
     "explicit order, fixed top, fixed bottom, sort-by-opposing-element, opposing-insertion on a "
-    "derived item}, every item and every spelling of it {alias, sub-variable id, element id as "
+    "derived item, item pinned while its own dimension is sorted by an opposing element or by "
+    "a marginal}, every item and every spelling of it {alias, sub-variable id, element id as "
     "int and as string, zero-based position when it is no element id; datetime: position id "
     "and value}: all public outputs must equal those under the alias spelling. Then stale and "
     "malformed references (unknown string, out-of-range and negative numbers as int and "
